@@ -86,7 +86,7 @@ ABS_CLASSES = [POSITIVE, 0x33, ROOR, NONE, LATE]
 
 def abstract(tier: str) -> list[dict[str, Any]]:
     out = []
-    step = 40 if tier == "quick" else 1
+    step = 50 if tier == "quick" else 1
     for n, combo in enumerate(itertools.product(ABS_CLASSES, repeat=len(ABS_MARKERS))):
         if n % step != (7 if tier == "quick" else 0):
             continue
@@ -109,7 +109,7 @@ def session_family(tier: str) -> list[dict[str, Any]]:
     n = 0
     for drop, check, read, budget, reset_ok in itertools.product(DROPS, CHECKS, READS, BUDGETS, (True, False)):
         n += 1
-        if tier == "quick" and n % 25 != 5:
+        if tier == "quick" and n % 31 != 5:
             continue
         if read == "silent" and check in (1, 2) and tier == "quick" and n % 3:
             continue  # four timed-out reads per address: slow, keep a few
@@ -159,7 +159,7 @@ def dense_family() -> list[dict[str, Any]]:
 def random_family(tier: str, seed: int) -> list[dict[str, Any]]:
     rng = random.Random(seed * 7919 + 5)
     out = []
-    for n in range(25 if tier == "quick" else 500):
+    for n in range(20 if tier == "quick" else 300):
         svc = rng.choice(SVCS)
         session = rng.choice([2, 3, 3, 1])
         pool = BOUNDARY + AROUND + [rng.randrange(256) << (8 * rng.randrange(5)) for _ in range(8)]
